@@ -35,7 +35,17 @@ if go test -count=1 -run "^($TESTS)\$" "./$DP"; then fail "demo passes with the 
 rm "$DP/zz_seed_demo_test.go"
 echo "### whole suite with patch"
 go test -count=1 -vet=off -timeout 25m ./... 2>&1 | grep -v 'no test files' | tee /tmp/seedcheck/$P-$K.suite | tail -40
-if grep -qE '^(FAIL|---\s*FAIL|panic:)' /tmp/seedcheck/$P-$K.suite; then fail "existing tests fail with the patch"; fi
+if grep -qE '^(FAIL|---\s*FAIL|panic:)' /tmp/seedcheck/$P-$K.suite; then
+  # the machine is shared and some timing-sensitive tests are flaky under load: re-run the failing
+  # packages alone, twice; a package that passes both re-runs is counted as a flake
+  PKGS=$(grep -E '^FAIL\s+github.com' /tmp/seedcheck/$P-$K.suite | awk '{print $2}' | sed 's#github.com/gotd/td#.#' | sort -u)
+  [ -n "$PKGS" ] || fail "existing tests fail with the patch"
+  echo "### re-running failing packages: $PKGS"
+  for round in 1 2; do
+    go test -count=1 -vet=off -timeout 25m $PKGS || fail "existing tests fail with the patch (also on re-run): $PKGS"
+  done
+  echo "### failures did not reproduce on re-run: treated as flakes ($PKGS)"
+fi
 cd /
 git -C /repo worktree remove --force "$WT"
 echo "SEEDCHECK $P/$K: OK (demo tests: $TESTS in $DP)" >&3
